@@ -6,7 +6,7 @@ import hashlib
 import os
 
 from checks import histcommon as hc
-from simlib import lockstep, workload
+from simlib import lockstep, workload, workload2
 from simlib.chooser import Chooser, mix_seed
 from simlib.driver import blank_result, violation
 
@@ -16,7 +16,7 @@ ENGINE = "histsim"
 RULE = (
     "case = Chooser-generated history of 3-8 operations over cache locations R1,R2 (roots) and R1,R2,R3 (read-only "
     "lists in random order): submit(task|workflow, rerun?, propagate_rerun?, root, readonly list, debug|simulated-pool "
-    "worker) over a pool of 4 plain tasks and 2 workflows sharing inner identities with them, and leave_residue(identity, "
+    "worker) over a pool of 4 plain tasks, 2 workflows sharing inner identities with them and a workflow that nests one of those workflows, and leave_residue(identity, "
     "location): a real process executing that job is SIGKILLed at a Chooser-picked point, leaving an incomplete "
     "directory / stale lock / torn result (in half of the cases the lock and info files are then removed, as in a copied cache).  Reference model: per location the set of identities with a complete "
     "successful result.  Non-trivial = the history contains a cache hit, a rerun or a residue; distinct = distinct "
@@ -30,7 +30,7 @@ ASSUMPTIONS = [
     "identity = (task class, input values) as the model understands the computation, never pydra's checksum",
     "with propagate_rerun=False inner tasks of a rerun workflow follow the ordinary cache rule",
 ]
-PROBES = ["residue_without_lock", "cache_hit", "readonly_hit", "rerun", "rerun_no_propagate", "residue_in_root", "residue_in_readonly", "cf_submission", "workflow_inner_shared"]
+PROBES = ["nested_workflow", "rerun_nested", "residue_without_lock", "cache_hit", "readonly_hit", "rerun", "rerun_no_propagate", "residue_in_root", "residue_in_readonly", "cf_submission", "workflow_inner_shared"]
 N = {"quick": 300, "thorough": 6000}
 JOBS = 6
 
@@ -56,6 +56,14 @@ TASKS = {
     # Chain2(x): a=Add(x,1), b=Slow(a.out,2)
     "wf1": (lambda: workload.Chain2(x=1), [_k_add(1, 1), _k_slow(2, 2)], {"out": 5}),
     "wf2": (lambda: workload.Chain2(x=2), [_k_add(2, 1), _k_slow(3, 2)], {"out": 7}),
+    # Nest2(x): inner=Chain2(x) (a nested workflow job with the identity of wf<x>), c=Add(inner.out,3)
+    "wfn1": (lambda: workload2.Nest2(x=1), [_k_add(1, 1), _k_slow(2, 2), _k_add(5, 3)], {"out": 8}),
+}
+# workflow structure for the model: own task identities and nested workflows
+WFS = {
+    "wf1": ([_k_add(1, 1), _k_slow(2, 2)], []),
+    "wf2": ([_k_add(2, 1), _k_slow(3, 2)], []),
+    "wfn1": ([_k_add(5, 3)], ["wf1"]),
 }
 
 
@@ -141,13 +149,24 @@ def run_case(case, ch, workdir):
             def cached(k):
                 return any(k in store[loc] for loc in listed)
 
-            expect = {}
+            expect = {k: 0 for k in keys}
+            written = []  # workflow results this submission writes into the root
+
+            def expand(wname, force):
+                # a workflow job: served from the cache unless forced; otherwise expanded,
+                # its tasks and nested workflows getting the propagated rerun flag
+                if not force and cached(f"wf:{wname}"):
+                    return
+                written.append(f"wf:{wname}")
+                inner_force = rerun and prop
+                own, subs = WFS[wname]
+                for k in own:
+                    expect[k] = 1 if inner_force or not cached(k) else 0
+                for sub in subs:
+                    expand(sub, inner_force)
+
             if is_wf:
-                if not rerun and cached(wfkey):
-                    expect = {k: 0 for k in keys}
-                else:
-                    for k in keys:
-                        expect[k] = 1 if (rerun and prop) or not cached(k) else 0
+                expand(name, rerun)
             else:
                 expect[keys[0]] = 1 if rerun or not cached(keys[0]) else 0
             snaps = {n: hc.tree_snapshot(p) for n, p in locs.items() if n != root}
@@ -195,11 +214,15 @@ def run_case(case, ch, workdir):
                 if val.get(k) != v:
                     violation(res, "wrong-output", sig, f"output {k}={val.get(k)!r}, value model says {v!r}; {ctx}")
             if is_wf:
-                # the workflow result itself is written to the root unless it was served from a cache
-                if rerun or not cached(wfkey):
-                    store[root].add(wfkey)
-                    dirty[root].discard(wfkey)
+                # the results of the workflow jobs that were expanded are written to the root
+                for wk in written:
+                    store[root].add(wk)
+                    dirty[root].discard(wk)
                 probe("workflow_inner_shared")
+                if name == "wfn1":
+                    probe("nested_workflow")
+                    if rerun and prop:
+                        probe("rerun_nested")
             for n, before in snaps.items():
                 after = hc.tree_snapshot(locs[n])
                 if after != before:
@@ -237,6 +260,8 @@ def _complete_keys(loc):
                 out.add(_k_slow(t.x, t.npoints))
             elif nm == "Chain2":
                 out.add(f"wf:wf{t.x}")
+            elif nm == "Nest2":
+                out.add(f"wf:wfn{t.x}")
         except Exception:
             continue
     return out
